@@ -811,10 +811,14 @@ def _adopt_process_locks(process):
 
 
 @no_type_check
-def _process_run_wrapper(self, *args, **kwargs):
+def _process_bootstrap_wrapper(self, *args, **kwargs):
+    # `_bootstrap()` (not `run()`) because it's what every start method invokes in the
+    # child process and, unlike `run()`, it's not meant to be overridden by subclasses
+    # (a `Process` subclass typically overrides `run()` without calling the base
+    # implementation).
     _adopt_process_locks(self)
 
-    return _process_run_wrapper.__wrapped__(self, *args, **kwargs)
+    return _process_bootstrap_wrapper.__wrapped__(self, *args, **kwargs)
 
 
 # Private internal variables
@@ -859,12 +863,12 @@ if OS_IS_UNIX:
         BaseProcess.start = wraps(BaseProcess.start)(  # type: ignore[method-assign]
             _process_start_wrapper
         )
-        BaseProcess.run = wraps(BaseProcess.run)(  # type: ignore[method-assign]
-            _process_run_wrapper
-        )
+        BaseProcess._bootstrap = wraps(  # type: ignore[method-assign]
+            BaseProcess._bootstrap
+        )(_process_bootstrap_wrapper)
 
         # A subprocess (started with the "spawn" or "forkserver" method) may load this
-        # module only after its `run()` method has been called.
+        # module only after its `_bootstrap()` method has been called.
         _adopt_process_locks(current_process())
 
         # Shouldn't be needed since we're getting our own separate file descriptors
